@@ -2,7 +2,9 @@ package props
 
 import (
 	"fmt"
+	"net/http"
 	"reflect"
+	"sort"
 	"strings"
 	"testing"
 	"time"
@@ -296,7 +298,7 @@ func propC19FE(c c14Case) hh.Verdict {
 			continue
 		}
 		snap := func() string {
-			return fmt.Sprintf("Form=%v PostForm=%v RawQuery=%q", model.SortedPairs(req.Form), model.SortedPairs(req.PostForm), req.URL.RawQuery)
+			return fmt.Sprintf("Form=%v PostForm=%v RawQuery=%q %s", model.SortedPairs(req.Form), model.SortedPairs(req.PostForm), req.URL.RawQuery, requestEnvelope(req))
 		}
 		before := snap()
 		var firstObs string
@@ -324,6 +326,27 @@ func propC19FE(c c14Case) hh.Verdict {
 		}
 		r.Cleanup()
 		v.Classes = append(v.Classes, "fe:"+fe)
+		if fe == model.FEForm {
+			// the same record in a request the front end cannot decode (a raw % in the body), sent by a client that
+			// adds parameters to its Content-Type: what the handler, a logger or a proxy reads from the request
+			// afterwards is what the client sent
+			for _, ct := range []string{"application/x-www-form-urlencoded; charset=utf-8", "application/x-www-form-urlencoded;charset=UTF-8", "application/x-www-form-urlencoded"} {
+				bad, _ := http.NewRequest("POST", "http://example.test/x?src=q", strings.NewReader(r.Text+"&note=100% cotton"))
+				bad.Header.Set("Content-Type", ct)
+				bad.Header.Set("X-Request-Id", "r-1")
+				before := requestEnvelope(bad)
+				for run := 0; run < 2; run++ {
+					res := model.Run(schema, env, model.Exec{Mode: "parse"}, zhttp.Request(bad), reflect.New(typ))
+					if res.Panic != nil {
+						return hh.Fail("[form, undecodable body] panic: %v", res.Panic)
+					}
+					if after := requestEnvelope(bad); after != before {
+						return hh.Fail("[form, undecodable body] Parse modified the request it was given: before %s after %s", before, after)
+					}
+				}
+			}
+			v.Classes = append(v.Classes, "undecodable-twin")
+		}
 		if strings.Contains(r.Text, "%5B%5D=") {
 			v.Nontrivial = true
 			v.Classes = append(v.Classes, "list-parameter")
@@ -378,6 +401,16 @@ func propC19Validate(c model.Case) hh.Verdict {
 	}
 	v.Nontrivial = failedPre > 0 || contains(v.Classes, "changed-and-issues")
 	return v
+}
+
+// requestEnvelope: what a request says besides its parsed form: method, URL, headers, declared length.
+func requestEnvelope(r *http.Request) string {
+	var hs []string
+	for k, v := range r.Header {
+		hs = append(hs, fmt.Sprintf("%s=%q", k, v))
+	}
+	sort.Strings(hs)
+	return fmt.Sprintf("method=%s url=%s headers=%v length=%d", r.Method, r.URL.String(), hs, r.ContentLength)
 }
 
 func TestC19(t *testing.T) {
